@@ -181,6 +181,26 @@ def run(ck, F, E):
     ck.require(not bad, "C09:NOLOOP:core", "no run loop", "no loop in abasic-core drives the interpreter",
                "abasic-core now contains a loop that drives execution (%s): a host call no longer returns between statements" % bad)
 
+    # ---- (3b) the work of one call is bounded by the current line: nothing reachable from the stepper moves to another line
+    # inside a loop (a FOR that walks forward to its NEXT over however many lines lie between does the work of the whole body
+    # in the FOR's own call, and the host cannot stop in between)
+    root0 = F.one("Interpreter::run_next_statement")
+    if root0 is not None:
+        movers = ("Program::next_line", "Program::goto_line_number", "Program::gosub_line_number", "ProgramLines::after")
+        crossing = []
+        for p in sorted(G.reachable([root0.path])):
+            b = F.bodies.get(p)
+            if b is None or b.crate != "abasic_core" or "::analyzer::" in p or not b.natural_loops():
+                continue
+            lb = set().union(*b.natural_loops().values())
+            for c in b.calls():
+                if c.bb in lb and any(sfx(c.callee, m) for m in movers):
+                    crossing.append("%s -> %s" % (p.split("::")[-1], c.callee.split("::")[-1]))
+        ck.require(not crossing, "C09:NOLOOP:no-line-change-in-a-loop", "no run loop",
+                   "no loop reachable from run_next_statement moves the program to another line",
+                   "a loop reachable from run_next_statement moves from line to line (%s): one host call now walks over an "
+                   "unbounded stretch of the program" % "; ".join(sorted(set(crossing))))
+
     # ---- (4) loop progress
     root = F.one("Interpreter::run_next_statement")
     if root is None:
